@@ -217,6 +217,9 @@ def run(prog, rep, tier, cfg):
         rep.need('K2-ref', 'datacap:%s:governor-only' % m, bool(row) and row['sites'] == [{'kind': 'is', 'atoms': ['F:State.governor']}], 'designated Is[State.governor] in the C11 matrix')
     X.writers('K4', 'State', 'governor', [], crate=DC, constructors=['state::State::new', 'Actor::constructor'])
     verifier_gate(prog, rep, X)
+    # ---- running totals (amounts, power, datacap) accumulated in loops keep their earlier contributions
+    X.accumulator_integrity('K12', 'running-totals', ['fil_actor_verifreg', 'fil_actor_datacap'], 'running totals of amounts')
+
 
 
 def verifier_gate(prog, rep, X, prefix=''):
